@@ -22,8 +22,10 @@ def ground_truth(rng, sem):
     if sem.modal:
         dens = rng.choice((0.2, 0.4, 0.7))
         R = {(a, b) for a in worlds for b in worlds if rng.random() < dens}
-    nconsts = rng.choice((0, 1, 2, 2, 3))
-    consts = [('c', i, 0) for i in sorted(rng.sample(range(4), nconsts))]
+    # mostly <= 3 constants; some larger domains (two multi-member identity classes need >= 4)
+    nconsts = rng.choice((0, 1, 2, 2, 3, 3, 4, 5))
+    pool = [('c', i, 0) for i in range(4)] + [('c', 0, 1), ('c', 2, 1)]
+    consts = sorted(rng.sample(pool, nconsts))
     atoms = [('A', i, 0) for i in range(rng.choice((1, 2, 3)))]
     preds = [(0, 0, 1)] + ([(1, 0, 2)] if rng.random() < 0.5 else [])
     opaques = []
@@ -68,9 +70,10 @@ def ground_truth(rng, sem):
                             facts.append(('pred', w, ('P', pk, tup), rng.choice(sem.values)))
     return dict(worlds=worlds, R=sorted(R), facts=facts, atoms=atoms, preds=preds, opaques=opaques, consts=consts)
 
-def history_from(rng, gt, sem):
+def history_from(rng, gt, sem, conflicts=False):
     """API call list: every fact once or twice, access pairs, in a seeded order; some facts as
-    negated literals."""
+    negated literals. With conflicts, some facts are also offered with a second, different
+    value (a fault: the model refuses whichever call comes second, the caller carries on)."""
     calls = []
     neg = sem.ops['Negation']
     for kind, w, s, v in gt['facts']:
@@ -90,6 +93,12 @@ def history_from(rng, gt, sem):
     for w in gt['worlds']:
         if rng.random() < 0.3:
             calls.append(['world', w])
+    if conflicts and gt['facts'] and rng.random() < 0.4:
+        for _ in range(rng.choice((1, 1, 2))):
+            kind, w, sent, v = rng.choice(gt['facts'])
+            others = [x for x in sem.values if x != v]
+            if others:
+                calls.append(['conflict', kind, w, lexgen.to_json(sent), rng.choice(others)])
     rng.shuffle(calls)
     # a preview of the export before the model is finished (the description of the finished
     # model must not depend on it)
@@ -101,6 +110,7 @@ def apply_history(logic, calls):
     "Drive the library's model API. Returns the finished model."
     L = registry(logic)
     m = L.Model()
+    conflicted = any(c[0] == 'conflict' for c in calls)
     for c in calls:
         k = c[0]
         if k == 'access':
@@ -113,17 +123,36 @@ def apply_history(logic, calls):
         elif k == 'world':
             m.R[c[1]]
             m.frames[c[1]] if L.Meta.modal else None
+        elif k == 'conflict':
+            # whichever of the two conflicting calls comes second is refused; carry on
+            sub = [c[1], c[2], c[3], c[4]]
+            try:
+                _set(L, m, sub)
+            except Exception:
+                pass
         else:
-            s = lexgen.build(lexgen.from_json(c[2]))
-            kw = dict(world=c[1]) if L.Meta.modal or c[1] else {}
-            if k == 'atom': m.set_atomic_value(s, c[3], **kw)
-            elif k == 'pred': m.set_predicated_value(s, c[3], **kw)
-            elif k == 'opaque': m.set_opaque_value(s, c[3], **kw)
-            elif k == 'literal': m.set_literal_value(s, c[3], **kw)
-            elif k == 'value': m.set_value(s, c[3], **kw)
-            else: raise ValueError(k)
+            if conflicted:
+                # after a refused call nothing is promised about which of the two values stays,
+                # so a later refusal of the other one is part of the same fault
+                try:
+                    _set(L, m, c)
+                except Exception:
+                    pass
+            else:
+                _set(L, m, c)
     m.finish()
     return m
+
+def _set(L, m, c):
+    k = c[0]
+    s = lexgen.build(lexgen.from_json(c[2]))
+    kw = dict(world=c[1]) if L.Meta.modal or c[1] else {}
+    if k == 'atom': m.set_atomic_value(s, c[3], **kw)
+    elif k == 'pred': m.set_predicated_value(s, c[3], **kw)
+    elif k == 'opaque': m.set_opaque_value(s, c[3], **kw)
+    elif k == 'literal': m.set_literal_value(s, c[3], **kw)
+    elif k == 'value': m.set_value(s, c[3], **kw)
+    else: raise ValueError(k)
 
 def reference_model(sem, calls, lib_R=None):
     """The same facts as a set, completed by R1's rules. For the serial logic the library's
